@@ -12,6 +12,8 @@ An expression is a JSON-able nested list:
     ["sin", a] ["cos", a] ["tanh", a] ["atan", a]
     ["gauss", a]       exp(-a**2)
     ["gate", a]        1/(1 + exp(a))   (logistic gate; only used by directed probes)
+    ["abs", a]         |a|               (only generated for programs whose symbols are declared real)
+    ["sgn", a]         sign(a)           (appears in derivatives of abs)
     ["hyp", a]         sqrt(1 + a**2)
     ["lg", a]          log(1 + a**2)
     ["asinsin", a]     asin(sin(a))   angle-wrap idioms: total and continuous, but
@@ -40,7 +42,7 @@ MP = mpmath.mp.clone()
 MP.dps = 40
 mpf = MP.mpf
 
-UNARY = ("neg", "sin", "cos", "tanh", "atan", "gauss", "gate", "hyp", "lg", "asinsin", "acoscos", "atantan")
+UNARY = ("neg", "sin", "cos", "tanh", "atan", "gauss", "gate", "abs", "sgn", "hyp", "lg", "asinsin", "acoscos", "atantan")
 WRAPS = ("asinsin", "acoscos", "atantan")
 BINARY = ("add", "sub", "mul", "div")
 
@@ -155,6 +157,10 @@ def to_sympy(a, symtab=None):
             return sympy.exp(-rec(a[1]) ** 2)
         if op == "gate":
             return 1 / (1 + sympy.exp(rec(a[1])))
+        if op == "abs":
+            return sympy.Abs(rec(a[1]))
+        if op == "sgn":
+            return sympy.sign(rec(a[1]))
         if op == "hyp":
             return sympy.sqrt(1 + rec(a[1]) ** 2)
         if op == "lg":
@@ -194,6 +200,10 @@ def to_text(a):
         return f"exp(-({to_text(a[1])})**2)"
     if op == "gate":
         return f"(1/(1 + exp({to_text(a[1])})))"
+    if op == "abs":
+        return f"Abs({to_text(a[1])})"
+    if op == "sgn":
+        return f"sign({to_text(a[1])})"
     if op == "hyp":
         return f"sqrt(1 + ({to_text(a[1])})**2)"
     if op == "lg":
@@ -259,6 +269,13 @@ def ev(a, env):
     if op == "gate":
         v = 1 / (1 + MP.exp(x))
         return v, v * (1 + sx)
+    if op == "abs":
+        return abs(x), sx
+    if op == "sgn":
+        # piecewise constant; within rounding distance of the kink the value is undecided
+        if abs(x) <= mpf(10) ** -9 * (1 + sx):
+            return MP.sign(x), mpf("inf")
+        return MP.sign(x), mpf(0)
     if op == "hyp":
         u = 1 + x * x
         su = 1 + sx * sx
@@ -331,6 +348,10 @@ def d(a, name):
         return mul(mul(mul(C(-2), u), ["gauss", u]), du)
     if op == "gate":
         return mul(neg(mul(["gate", u], sub(ONE, ["gate", u]))), du)
+    if op == "abs":
+        return mul(["sgn", u], du)
+    if op == "sgn":
+        return ZERO
     if op == "hyp":
         return mul(["div", u, ["hyp", u]], du)
     if op == "lg":
